@@ -146,6 +146,7 @@ type Loop struct {
 	Extra   []int      `json:"extra"`   // per function: non-tail calls back into the family (0 = none)
 	K       int        `json:"k"`
 	Mult    int        `json:"mult"`
+	Dig     int        `json:"dig"`     // f0 makes a non-tail excursion this deep on its second turn (0 = none)
 	Blocked string     `json:"blocked"` // "", "handler-bind", "ignore-errors", "load-string", "and"
 	BlockAt int        `json:"block_at"`
 }
@@ -156,7 +157,8 @@ var callKinds = []string{"direct", "funcall", "funcall-sym", "apply", "apply2", 
 func genLoop(blocked bool) *rapid.Generator[Loop] {
 	return rapid.Custom(func(t *rapid.T) Loop {
 		l := Loop{NFun: rapid.IntRange(1, 3).Draw(t, "nfun"), K: rapid.IntRange(4, 25).Draw(t, "k"),
-			Mult: rapid.SampledFrom([]int{10, 10, 10, 25}).Draw(t, "mult")}
+			Mult: rapid.SampledFrom([]int{10, 10, 10, 25}).Draw(t, "mult"),
+			Dig:  rapid.SampledFrom([]int{0, 0, 0, 40, 300, 600}).Draw(t, "dig")}
 		for i := 0; i < l.NFun; i++ {
 			n := rapid.IntRange(0, 5).Draw(t, "depth")
 			w := make([]string, 0, n+1)
@@ -296,9 +298,16 @@ func (l Loop) source(n int) string {
 		if strings.HasPrefix(l.Calls[i], "head-") {
 			body = fmt.Sprintf("(if (= n -1) %s %s)", next, body)
 		}
+		if i == 0 && l.Dig > 0 {
+			// a deep non-tail excursion on a LATER turn of the collapsed loop:
+			// the stack grows beyond anything the runtime has held so far
+			// while the loop's frame is live
+			extra = fmt.Sprintf("(if (= acc %d) (dig %d) 0) ", l.NFun, l.Dig) + extra
+		}
 		fmt.Fprintf(&b, "(defun f%d (n acc) (probe 'h n) %s%s)\n", i, extra, body)
 	}
 	fmt.Fprintf(&b, "(defun helper (n) (f0 0 n))\n")
+	fmt.Fprintf(&b, "(defun dig (k) (if (<= k 0) 0 (+ 1 (dig (- k 1)))))\n")
 	fmt.Fprintf(&b, "(f0 %d 0)\n", n)
 	return b.String()
 }
